@@ -41,6 +41,44 @@ struct Shared {
     /// op J: the next service instance that is dropped takes 300 ms to do so and says when it starts
     slow_drop: std::sync::atomic::AtomicBool,
     dropping: std::sync::atomic::AtomicBool,
+    /// op B / b: every service answers Pending to its readiness check while set (back-pressure); the wakers it was asked with
+    blocked: std::sync::atomic::AtomicBool,
+    ready_wakers: Mutex<Vec<std::task::Waker>>,
+}
+
+/// A user service whose readiness can be switched off from outside: `poll_ready` is Pending while `Shared::blocked` is set.
+#[derive(Clone)]
+struct Gated<S>(S, Arc<Shared>);
+impl<S, Req> actix_service::Service<Req> for Gated<S>
+where
+    S: actix_service::Service<Req>,
+{
+    type Response = S::Response;
+    type Error = S::Error;
+    type Future = S::Future;
+    fn poll_ready(&self, cx: &mut std::task::Context<'_>) -> std::task::Poll<Result<(), Self::Error>> {
+        if self.1.blocked.load(Ordering::SeqCst) {
+            self.1.ready_wakers.lock().unwrap().push(cx.waker().clone());
+            return std::task::Poll::Pending;
+        }
+        self.0.poll_ready(cx)
+    }
+    fn call(&self, req: Req) -> Self::Future {
+        self.0.call(req)
+    }
+}
+
+/// the factory of a `Gated` service (what `ServerBuilder::bind/listen` take)
+fn gated_factory<S, Req>(svc: S, sh: Arc<Shared>) -> impl actix_service::ServiceFactory<Req, Config = (), Response = S::Response, Error = S::Error, InitError = (), Service = Gated<S>> + Clone
+where
+    S: actix_service::Service<Req> + Clone + 'static,
+    Req: 'static,
+{
+    let g = Gated(svc, sh);
+    actix_service::fn_factory(move || {
+        let g = g.clone();
+        async move { Ok::<_, ()>(g) }
+    })
 }
 
 /// Captured by every service instance: stands for a user service with a destructor that takes time.
@@ -240,22 +278,30 @@ fn start(w: usize, l: usize, chain: &[String], dir: &PathBuf, sh: &Arc<Shared>, 
                     let sh3 = sh2.clone();
                     let w = inst2.fetch_add(1, Ordering::SeqCst) / per_worker;
                     let slow = SlowDrop(sh3.clone());
-                    fn_service(move |s: TcpStream| {
-                        let _ = &slow;
-                        let (w, act) = enter(call, w, nworkers, &sh3);
-                        serve(s, call, w, act, sh3.clone())
-                    })
+                    let sh4 = sh3.clone();
+                    gated_factory(
+                        fn_service(move |s: TcpStream| {
+                            let _ = &slow;
+                            let (w, act) = enter(call, w, nworkers, &sh3);
+                            serve(s, call, w, act, sh3.clone())
+                        }),
+                        sh4,
+                    )
                 };
                 let sh2 = sh.clone();
                 let uds = move || {
                     let sh3 = sh2.clone();
                     let w = inst.fetch_add(1, Ordering::SeqCst);
                     let slow = SlowDrop(sh3.clone());
-                    fn_service(move |s: UnixStream| {
-                        let _ = &slow;
-                        let (w, act) = enter(call, w, nworkers, &sh3);
-                        serve(s, call, w, act, sh3.clone())
-                    })
+                    let sh4 = sh3.clone();
+                    gated_factory(
+                        fn_service(move |s: UnixStream| {
+                            let _ = &slow;
+                            let (w, act) = enter(call, w, nworkers, &sh3);
+                            serve(s, call, w, act, sh3.clone())
+                        }),
+                        sh4,
+                    )
                 };
                 // listener names in an order that is neither ascending nor descending (nothing may depend on the names)
                 let name = format!("{}{call}", ["q", "c", "x", "a", "m", "b", "z"][call % 7]);
@@ -559,6 +605,13 @@ fn run_once(line: &str, dir: &PathBuf, quiet: Duration) -> String {
                     if block_on(f).is_none() {
                         note = "!pause-or-resume-not-acknowledged".into();
                     }
+                }
+            }
+            b'B' => sh.blocked.store(true, Ordering::SeqCst),
+            b'b' => {
+                sh.blocked.store(false, Ordering::SeqCst);
+                for w in sh.ready_wakers.lock().unwrap().drain(..) {
+                    w.wake();
                 }
             }
             b'+' => std::thread::sleep(Duration::from_millis(rest.parse().unwrap())),
